@@ -54,3 +54,8 @@ check("C17", "translation_validation",
       "Path assertions (fixed point of conform, marker coherence, is_compound) on every path of every API-built SQL program, and "
       "SMT-decided content preservation of conform() and of compilation for raw trees assembled without the engine's help, for "
       "all table contents within the slot bound.", BSV + " and sqlmodel", "3/C17")
+check("C14", "other",
+      "Bounded exhaustive exploration under symx of multi-engine programs (all preferred-engine option combinations, three "
+      "engines, restricted column functions): on every z3-feasible path of every program the factory either raises the documented "
+      "class or returns a tree whose every node passes the invariant walk; documented no-op calls return self.",
+      "bounded symbolic execution (symx+z3 path enumeration) of the real factories + invariant walk of every returned tree", "3/C14")
